@@ -17,7 +17,8 @@
 (***************************************************************************)
 EXTENDS Num, TLC, Json
 
-CONSTANTS X0s,       \* {FALSE} for checking (an initial guess has no effect in the model), BOOLEAN for emission
+CONSTANTS TransSet,  \* the modes used (subsets give focused, deeper enumerations)
+          X0s,       \* {FALSE} for checking (an initial guess has no effect in the model), BOOLEAN for emission
           Classes,   \* subset of {"rs","rg","cs","ch","cg"}
           Pool,      \* sequence of blocks [cols |-> <<vectors of <<re,im>> integer pairs>>, cplx |-> BOOLEAN]
           Givens,    \* subset of {"none","sym","herm"}: flags supplied by the user at construction
@@ -152,7 +153,7 @@ Finish ==
 Act ==
   /\ (Len(hist) < Depth \/ ~Record)
   /\ \/ \E c \in Classes : Update(c)
-     \/ \E p \in 1..Len(Pool), trans \in {"N", "T", "H"}, x0 \in X0s : Solve(p, trans, x0)
+     \/ \E p \in 1..Len(Pool), trans \in TransSet, x0 \in X0s : Solve(p, trans, x0)
 
 Next == Finish \/ Act
 Spec == Init /\ [][Next]_vars
